@@ -14,6 +14,9 @@ def scenarios(tier, seed):
     far = 3.0 * tc.R
     out = []
     grid = [(100, 100, 10000), (100, 100, 3000), (100, 200, 2500), (100, 250, 2600), (100, 333, 2000), (100, 700, 5100), (50, 1000, 6000), (100, 1000, 950)]
+    # durations that the accumulated time hits EXACTLY in doubles (ten steps of 1e-7 sum to 1e-6 bit for bit, five to 5e-7, three to 3e-7):
+    # the loop condition is only tested at equality there ("... until T is reached")
+    grid += [(100, 200, 1000), (100, 100, 500), (100, 100, 300)]
     if tier == "thorough":
         grid += [(100, s, t) for s in (100, 150, 300, 410, 999) for t in (1234, 4000)] + [(37, 100, 3000), (10, 10, 2000), (1, 1, 250), (100, 100, 25600)]
     for i, (dt, S, T) in enumerate(grid):
@@ -50,6 +53,9 @@ def run(tier, seed, replay=None):
         end = ev[-1] if ev and ev[-1].get("e") == "end" else {}
         chk.sample({"scenario": s["name"], "dt_S_T_ns": s["ticks"], "files": end.get("files_cell"), "stat_rows": end.get("stats", {}).get("nrows"), "iterations": end.get("iter")})
     chk.cov["evaluations"] = nev
+    chk.cov["runs_ending_exactly_at_T"] = sum(1 for s, ev, rc, depth, tags, res in validated if ev and ev[-1].get("e") == "end" and ev[-1].get("time_eq_T"))
+    if not replay and not chk.cov["runs_ending_exactly_at_T"] and not chk.violations:
+        raise ModelError("vacuous: no run whose accumulated time lands exactly on its duration")
     chk.cov["distinct_nontrivial"] = len(scns)
     chk.cov["rule"] = "one trace per (dt, S, T, population history, statistics sink); every phase boundary, every file written, the final directory listing, every file read back, every statistics row"
     if not replay:
